@@ -308,8 +308,9 @@ BkNext == \/ BkCheckLock \/ BkListBands \/ BkMkBand \/ BkWriteHead \/ BkRecheck 
 StartDelete ==
     /\ IF AllowConcurrent THEN gc.pc = "Idle" ELSE Quiet
     /\ cnt.deletes < MaxDeletes
-    \* (--break-lock is for the stale lock of a killed delete: only offered when there is one)
-    /\ \E D \in SUBSET Bands(fs) : \E dry \in BOOLEAN : \E brk \in (IF fs.lock /\ gc.pc = "Idle" /\ ~AllowConcurrent THEN BOOLEAN ELSE {FALSE}) :
+    \* (--break-lock is for the stale lock of a killed delete; it may also be given when there is no lock
+    \* at all -- then it must make no difference, also while a backup runs)
+    /\ \E D \in SUBSET Bands(fs) : \E dry \in BOOLEAN : \E brk \in (IF (fs.lock /\ gc.pc = "Idle" /\ ~AllowConcurrent) \/ ~fs.lock THEN BOOLEAN ELSE {FALSE}) :
          gc' = [pc |-> IF brk THEN "BreakLock" ELSE "ListBands", del |-> D, dry |-> dry, last |-> -1, keep |-> {}, toread |-> {},
                 referenced |-> {}, unref |-> {}, todel |-> {}, res |-> "", fs0 |-> fs, faulty |-> FALSE]
     /\ cnt' = [cnt EXCEPT !.deletes = @ + 1]
